@@ -320,6 +320,12 @@ func (d *dataRun) hostileCase(c DataCase, out map[string]interface{}) {
 			"\r\nContent-Length: "+strconv.Itoa(big)+"\r\nX-Seq: 1\r\nX-Mtype: 1\r\n\r\n{\"tag\":"))
 		inputs = append(inputs, []byte("POST /t/call HTTP/1.1\r\nContent-Type: application/json\r\nContent-Length: "+strconv.Itoa(big)+
 			"\r\nContent-Length: -"+strconv.Itoa(big-10)+"\r\nX-Seq: 1\r\nX-Mtype: 1\r\n\r\n{\"tag\":"))
+	case "endlessline":
+		// a request line, a header line and a status line that never end (1 MiB without a line feed)
+		long := bytes.Repeat([]byte("A"), 1<<20)
+		inputs = append(inputs, append([]byte("POST /"), long...))
+		inputs = append(inputs, append([]byte("POST /t/call HTTP/1.1\r\nX-Long: "), long...))
+		inputs = append(inputs, append([]byte("HTTP/1.1 200 "), long...))
 	case "neglen":
 		inputs = append(inputs, []byte("POST /t/call HTTP/1.1\r\nContent-Type: application/json\r\nContent-Length: -1\r\nX-Seq: 1\r\nX-Mtype: 1\r\n\r\n{\"tag\":\"x\"}"))
 		inputs = append(inputs, []byte("POST /t/call HTTP/1.1\r\nContent-Type: application/json\r\nContent-Length: -2147483648\r\nX-Seq: 1\r\nX-Mtype: 1\r\n\r\n{\"tag\":\"x\"}"))
